@@ -1095,10 +1095,24 @@ def run(chk):
 
     # ---- (5) cancompare: flags -> ignore ----
     def run_cli(args):
+        """cancompare's stdout and the ignore dict it hands to compare_db (observed by wrapping the library function)"""
+        seen = []
+        orig = cmp.compare_db
+
+        def spy(d1, d2, ignore=None):
+            seen.append(dict(ignore or {}))
+            return orig(d1, d2, ignore)
         buf = io.StringIO()
-        with contextlib.redirect_stdout(buf):
-            clicmp.cli_compare.main(args, standalone_mode=False)
-        return buf.getvalue()
+        cmp.compare_db = spy
+        try:
+            with contextlib.redirect_stdout(buf):
+                clicmp.cli_compare.main(args, standalone_mode=False)
+        finally:
+            cmp.compare_db = orig
+        ign = seen[0] if seen else None
+        obs = None if ign is None else [int("comment" in ign), int(ign.get("ATTRIBUTE") == "*"), int(ign.get("DEFINE") == "*"),
+                                        int(bool(ign.get("VALUETABLES")))]
+        return buf.getvalue(), obs
 
     def run_lib(p1, p2, ign):
         d1 = canmatrix.formats.loadp_flat(p1)
@@ -1145,13 +1159,13 @@ def run(chk):
                     for at in (0, 1):
                         for t in (0, 1):
                             args = ["-s"] + (["-c"] if c else []) + (["-a"] if at else []) + (["-t"] if t else []) + [p1, p2]
-                            got = run_cli(args)
-                            bits = (1 - c, 1 - at, 0, t)
+                            got, obs = run_cli(args)
+                            bits = (1 - c, 1 - at, 0, t)      # documented: -c/-a switch checks on, -t switches value tables off
                             want = run_lib(p1, p2, ign_dict(bits))
                             chk.case(("cli", ci, vname, c, at, t), vname != "none")
                             chk.count("cli")
                             inp = dict(flags=args[:-2], edit=vname)
-                            if got != want:
+                            if got != want or obs != list(bits):
                                 chk.violation("cli-flag-mapping", "cancompare flags do not select the documented ignore settings", inp,
                                               want[:300], got[:300])
                             visible = {"none": False, "comment": bool(c), "attribute": bool(at), "valuetable": not t, "layout": True}[vname]
@@ -1159,7 +1173,7 @@ def run(chk):
                                 chk.violation("cli-flag-effect", "cancompare output does not show exactly the differences its flags ask for",
                                               inp, "output" if visible else "no output", got[:300])
                             lines.append(core.fmt_case(1302, [[c, at, t]]))
-                            expect.append([list(bits)])
+                            expect.append([obs if obs is not None else [-1]])
                             info.append(dict(cli=(c, at, t)))
     finally:
         shutil.rmtree(tmp, ignore_errors=True)
